@@ -31,6 +31,25 @@ TRUSTED = ["CPython ast", "pyarrow.compute result types: subsecond -> double, mu
            "starlette JSONResponse(status_code=...)"]
 
 
+def session_table(prog):
+    """(module, name) of the server's session table: the module-level mapping the login handler stores the new connection
+    into, wherever it is defined (followed through imports)."""
+    m = prog.mod("server")
+    fn = prog.fn("server", "login_request")
+    for n in ast.walk(fn):
+        if isinstance(n, ast.Assign):
+            for t in n.targets:
+                if isinstance(t, ast.Subscript) and isinstance(t.value, ast.Name):
+                    nm = t.value.id
+                    if nm in m.consts:
+                        return "server", nm
+                    if nm in m.imports:
+                        r = prog.resolve(m.imports[nm])
+                        if r:
+                            return r[0], r[1]
+    return "server", "sessions"
+
+
 class ServerHooks(Hooks):
     """scenario: 'no-auth' (no Authorization header) | 'bad-token' (header, token not in the session table) | 'ok'"""
 
@@ -46,7 +65,7 @@ class ServerHooks(Hooks):
         return NotImplemented
 
     def dict_get(self, I, dct, key, site):
-        if dct.shared_name == "server.sessions":
+        if dct.shared_name == ".".join(session_table(I.prog)):
             I.effect("session-lookup", key, site)
             return Const(None) if self.scenario == "bad-token" else Obj("SESSION_CONN", kind="conn")
         return NotImplemented
@@ -107,16 +126,24 @@ def rule_auth(ctx):
     ctx.floor("C17.a accepted request paths", nok, 1)
     # sessions written only in login_request
     writers = []
-    for qual, f in m.functions.items():
-        for n in ast.walk(f):
-            if isinstance(n, (ast.Assign, ast.AugAssign, ast.Delete)):
-                tg = n.targets if isinstance(n, (ast.Assign, ast.Delete)) else [n.target]
-                for t in tg:
-                    if isinstance(t, ast.Subscript) and isinstance(t.value, ast.Name) and t.value.id == "sessions":
-                        writers.append((qual, n))
-            if isinstance(n, ast.Call) and isinstance(n.func, ast.Attribute) and isinstance(n.func.value, ast.Name) and n.func.value.id == "sessions" \
-                    and n.func.attr in ("pop", "clear", "update", "setdefault", "popitem", "__setitem__"):
-                writers.append((qual, n))
+    tmod, tname = session_table(prog)
+
+    def is_table(e, mm):
+        if isinstance(e, ast.Name):
+            return (mm.name == tmod and e.id == tname) or prog.resolve(mm.imports.get(e.id, "")) == (tmod, tname)
+        return isinstance(e, ast.Attribute) and e.attr == tname and prog.resolve(prog.dotted(mm, e) or "") == (tmod, tname)
+
+    for mm in prog.modules.values():
+        for qual, f in mm.functions.items():
+            for n in ast.walk(f):
+                if isinstance(n, (ast.Assign, ast.AugAssign, ast.Delete)):
+                    tg = n.targets if isinstance(n, (ast.Assign, ast.Delete)) else [n.target]
+                    for t in tg:
+                        if isinstance(t, ast.Subscript) and is_table(t.value, mm):
+                            writers.append((qual if mm.name == "server" else f"{mm.name}.{qual}", n))
+                if isinstance(n, ast.Call) and isinstance(n.func, ast.Attribute) and is_table(n.func.value, mm) \
+                        and n.func.attr in ("pop", "clear", "update", "setdefault", "popitem", "__setitem__"):
+                    writers.append((qual if mm.name == "server" else f"{mm.name}.{qual}", n))
     bad = [w for w in writers if w[0] != "login_request"]
     ctx.ob("C17.a", "the session table is written only by the login handler", not bad and bool(writers), m.path)
     for q, n in bad:
@@ -225,7 +252,7 @@ def rule_login(ctx):
     m = prog.mod("server")
     fn = prog.fn("server", "login_request")
     connects = [c for c in ast.walk(fn) if isinstance(c, ast.Call) and isinstance(c.func, ast.Attribute) and c.func.attr == "connect"]
-    stores = [s for s in ast.walk(fn) if isinstance(s, ast.Assign) and any(isinstance(t, ast.Subscript) and norm(t.value) == "sessions" for t in s.targets)]
+    stores = [s for s in ast.walk(fn) if isinstance(s, ast.Assign) and any(isinstance(t, ast.Subscript) and isinstance(t.value, ast.Name) for t in s.targets)]
     tokens = [s for s in ast.walk(fn) if isinstance(s, ast.Assign) and isinstance(s.value, ast.Call) and norm(s.value.func).startswith("secrets.token_")]
     ok = len(connects) == 1 and len(stores) == 1 and stores[0].value is connects[0] and len(tokens) == 1 and \
         isinstance(stores[0].targets[0].slice, ast.Name) and stores[0].targets[0].slice.id == tokens[0].targets[0].id
